@@ -286,13 +286,15 @@ GRID_OPS = ["from_mask", "dg_all_false", "dg_unmasked", "dg_edge", "dg_border", 
             "ds_apply_mask", "ds_noise_scaling", "ds_over_sampling", "ds_trimmed", "ds_simulate", "ds_s2n"]
 
 def gen_inputs(tier, rng):
-    n = 1100 if tier == "thorough" else 40
+    n = 1000 if tier == "thorough" else 36
     for i in range(n):
         for op in GRID_OPS:
             H, W = rng.randint(1, 7), rng.randint(1, 8)
             if rng.random() < 0.15: W = H
             style = rng.choice(STYLES)
-            ps, o, d = rand_frame(rng)
+            # (the radial projection steps along x with the pixel scale of the longer axis: the two scales must be commensurable
+            # for the sums to be exact in doubles, so both axes get the same power of two there)
+            ps, o, d = rand_frame(rng, same_exp=(op == "radial"))
             if op in ("blurring",): H, W, style = rng.randint(3, 7), rng.randint(3, 8), "interior"
             if op == "rect_mapper" and rng.random() < 0.8: ps = (ps[0], ps[0]); o = (o[0], ps[0] * F(rng.randint(-12, 12), 4)); d = (d[0], ps[0] * F(rng.randint(-12, 12), 4))
             if op == "ds_s2n": H = max(H, 2)     # a one-row 2-D data set takes the function's Array1D branch (and raises): outside C12
@@ -315,6 +317,25 @@ def one_run(aa, op, m, ps, o, dd, prm, route, seed, memo):
     res["touched"] = check_untouched()
     return res
 
+# non-default configuration combinations (pushed for the whole case, both origins; restored afterwards; recorded in the output)
+NO_NATIVE_ONLY = {"over", "sub_grid", "pixel_grids", "rect_mapper", "ds_over_sampling"}    # unsupported by the library under native_binned_only
+def config_for(inp):
+    r = random.Random(inp["seed"] * 11 + 5)
+    cfg = {}
+    if inp["op"] not in NO_NATIVE_ONLY and r.random() < 0.12: cfg[("general", "structures", "native_binned_only")] = True
+    if inp["op"] == "radial" and r.random() < 0.5: cfg[("general", "grid", "remove_projected_centre")] = True
+    return cfg
+class pushed_config:
+    def __init__(self, cfg): self.cfg = cfg; self.old = {}
+    def __enter__(self):
+        from autoconf import conf
+        for (a, b, c), v in self.cfg.items():
+            self.old[(a, b, c)] = conf.instance[a][b][c]; conf.instance[a][b][c] = v
+    def __exit__(self, *exc):
+        from autoconf import conf
+        for (a, b, c), v in self.old.items(): conf.instance[a][b][c] = v
+        return False
+
 def routes_for(inp):
     """how the structures reach the entry point in the run at o and in the run at o + d (independent choices)"""
     r = random.Random(inp["seed"] * 7 + 3)
@@ -335,6 +356,11 @@ def run_case(inp):
     nun = sum(1 for r in m for b in r if not b)
     prm = PARAMS[op](rng, m, ps) if op in PARAMS else {}
     SHARED.clear()
+    cfg = config_for(inp)
+    with pushed_config(cfg):
+        return run_pair(aa, inp, op, m, ps, o, o2, d, prm, nun, cfg)
+
+def run_pair(aa, inp, op, m, ps, o, o2, d, prm, nun, cfg):
     ra, rb = routes_for(inp)
     memo_a, memo_b = {}, {}
     a = one_run(aa, op, m, ps, o, (F(0), F(0)), prm, ra, inp["seed"] + 1, memo_a)      # at origin o: coordinate arguments get + 0
@@ -356,7 +382,7 @@ def run_case(inp):
     cases = [f"(KPair {cpt(d)} {x} {y})" for x, y in zip(a["coq"], b["coq"])]
     return {"coq": cases[0] if cases else None, "extra_coq": cases[1:], "py_ok": ok, "kind": op,
             "nontrivial": nun >= 2, "out": {"at_o": a["show"], "at_o_plus_d": b["show"], "relation": why, "params": str(prm)[:300],
-                                            "routes": str([ra, rb])},
+                                            "routes": str([ra, rb]), "config": str(cfg)},
             "detail": why}
 
 def relate(ra, rb, d):
@@ -395,7 +421,9 @@ def op_sel(which):
         mask = mk_mask(aa, m, ps, o)
         idx = [int(i) for i in (mask.derive_indexes.edge_slim if which == "edge" else mask.derive_indexes.border_slim)]
         g = grid_out(mask.derive_grid.edge if which == "edge" else mask.derive_grid.border)
-        return {"coq": [kgrid(f"(GSel {clist([cnat(i) for i in idx])})", m, ps, o, g)], "rel": [("grid", g), ("inv", idx)], "show": jg(g[:4])}
+        # twice: against the index list the implementation reports (GSel) and against C10's model of that list (GEdge / GBorder)
+        return {"coq": [kgrid(f"(GSel {clist([cnat(i) for i in idx])})", m, ps, o, g), kgrid("GEdge" if which == "edge" else "GBorder", m, ps, o, g)],
+                "rel": [("grid", g), ("inv", idx)], "show": jg(g[:4])}
     return f
 
 def op_blurring(aa, m, ps, o, dd, prm):
@@ -547,7 +575,9 @@ def op_radial(aa, m, ps, o, dd, prm):
     g = grid_out(grid.grid_2d_radial_projected_from(centre=(fl(c[0]), fl(c[1])), angle=0.0, shape_slim=prm["shape_slim"],
                                                     remove_projected_centre=prm["remove"]))
     n = int(grid.grid_2d_radial_projected_shape_slim_from(centre=(fl(c[0]), fl(c[1]))))
-    return {"coq": [kgrid(f"(GRadial {cpt(c)} {cz(prm['shape_slim'])} {cbool(prm['remove'])})", m, ps, o, g)],
+    from autoconf import conf
+    rm = bool(conf.instance["general"]["grid"]["remove_projected_centre"]) if prm["remove"] is None else prm["remove"]
+    return {"coq": [kgrid(f"(GRadial {cpt(c)} {cz(prm['shape_slim'])} {cbool(rm)})", m, ps, o, g)],
             "rel": [("grid", g), ("inv", n)], "show": jg(g[:4])}
 
 def overlay_exact(m, ps, o, sy, sx):
@@ -637,12 +667,32 @@ def op_rect_mapper(aa, m, ps, o, dd, prm):
             "show": str(maps)}
 
 # ---- datasets
-def mk_imaging(aa, m, ps, o, rng_vals, psf=None):
+def mk_imaging(aa, m, ps, o, rng_vals, psf=None, pre=0):
+    """the un-masked Imaging on the frame (H x W, ps, o); [pre] > 0: the dataset is not fresh but DERIVED by operations that keep
+    that frame (its data arrays come out of arithmetic / native storage, or the dataset itself out of apply_mask with an all-False
+    mask, apply_over_sampling, a 1x1 trim), after its cached grids were read, or after it served another mask first"""
     H, W = len(m), len(m[0])
     kw = dict(pixel_scales=(fl(ps[0]), fl(ps[1])), origin=(fl(o[0]), fl(o[1])))
-    data = aa.Array2D.no_mask(values=np.array(rng_vals, dtype=float).reshape(H, W), **kw)
-    noise = aa.Array2D.no_mask(values=np.full((H, W), 2.0), **kw)
-    return aa.Imaging(data=data, noise_map=noise, psf=psf)
+    vals = np.array(rng_vals, dtype=float).reshape(H, W)
+    if pre == 1:
+        data = aa.Array2D.no_mask(values=vals / 2.0, **kw) * 2.0
+        noise = aa.Array2D(values=np.full((H, W), 2.0), mask=aa.Mask2D.all_false(shape_native=(H, W), **kw)).native.slim
+    else:
+        data = aa.Array2D.no_mask(values=vals, **kw)
+        noise = aa.Array2D.no_mask(values=np.full((H, W), 2.0), **kw)
+    ds = aa.Imaging(data=data, noise_map=noise, psf=psf)
+    if pre == 2:
+        ds.grids.uniform; ds.grids.pixelization
+        ds = ds.apply_mask(mask=aa.Mask2D.all_false(shape_native=(H, W), **kw))
+    elif pre == 3:
+        ds = ds.apply_over_sampling(aa.OverSamplingDataset(uniform=aa.OverSamplingUniform(sub_size=2)))
+    elif pre == 4:
+        ds.grids.uniform
+        ds = ds.trimmed_after_convolution_from(kernel_shape=(1, 1))
+    elif pre == 5 and H * W > 1:      # the same dataset object first serves ANOTHER mask
+        other = np.ones((H, W), dtype=bool); other[0, 0] = False
+        ds.apply_mask(mask=aa.Mask2D(mask=other, **kw)).grids.uniform
+    return ds
 
 def ds_result(ds, op, data_in, noise_in, arg, with_over=None):
     """Coq cases + relation items for a returned Imaging"""
@@ -669,6 +719,9 @@ def op_ds(which):
         if which == "simulate":
             image = aa.Array2D.no_mask(values=np.array(prm["vals"], dtype=float).reshape(H, W), pixel_scales=(fl(ps[0]), fl(ps[1])),
                                        origin=(fl(o[0]), fl(o[1])))
+            if CTX["aprov"] in (1, 6): image = (image + 1.0) - 1.0
+            elif CTX["aprov"] in (2, 3): image = image.native
+            CTX["args"].append((image, np.array(image).copy(), mask_fp(image.mask)))
             sim = SHARED.setdefault("sim", aa.SimulatorImaging(
                 exposure_time=1000.0, psf=aa.Kernel2D.no_mask(values=[[1.0]], pixel_scales=(fl(ps[0]), fl(ps[1]))),
                 add_poisson_noise_to_data=prm["poisson"], include_poisson_noise_in_noise_map=prm["poisson"],
@@ -676,13 +729,13 @@ def op_ds(which):
             ds = sim.via_image_from(image=image)
             coq, rel, gd = ds_result(ds, f"(DSimulate {cbool(prm['poisson'])})", D, D, D)
         elif which == "s2n":
-            ds0 = mk_imaging(aa, m, ps, o, prm["vals"])
+            ds0 = mk_imaging(aa, m, ps, o, prm["vals"], pre=CTX["aprov"] % 6)
             nm = aa.preprocess.noise_map_with_signal_to_noise_limit_from(data=ds0.data, noise_map=ds0.noise_map, signal_to_noise_limit=2.0)
             gd = geom_of(nm.mask)
             coq = [f"(KDataset DS2N {D} {D} {D} ({cgeom(gd)}, {cgeom(gd)}))"]
             rel = [("geom", gd), ("inv", [float(v) for v in np.array(nm.native).ravel()]), ("grid", grid_out(nm.mask.derive_grid.unmasked))]
         else:
-            ds0 = mk_imaging(aa, m, ps, o, prm["vals"], psf)
+            ds0 = mk_imaging(aa, m, ps, o, prm["vals"], psf, pre=CTX["aprov"] % 6)
             if which == "apply_mask":
                 ds = ds0.apply_mask(mask=mask)
                 pm = [[bool(b) for b in r] for r in np.array(ds.data.mask)]
@@ -750,7 +803,7 @@ PARAMS = {
     "resized": lambda rng, m, ps: {"shape": (rng.randint(1, 9), rng.randint(1, 9))},
     "zoomed_around": lambda rng, m, ps: {"buffer": rng.choice([0, 1, 1, 2])},
     "radial": lambda rng, m, ps: {"c_rel": (ps[0] * F(rng.randint(-8, 8), 4), ps[1] * F(rng.randint(-8, 8), 4)) if rng.random() < 0.8 else (F(0), F(0)),
-                                  "shape_slim": rng.choice([0, 0, 0, 3, 5]), "remove": rng.random() < 0.5},
+                                  "shape_slim": rng.choice([0, 0, 0, 3, 5]), "remove": rng.choice([True, False, False, None, None])},
     "overlay": lambda rng, m, ps: {"shape": (span_shape(rng, m, 0), span_shape(rng, m, 1))},
     "pixel_coords": lambda rng, m, ps: {"pts": pts_for(rng, m, ps), "pix": [(F(rng.randint(-8, 40), 4), F(rng.randint(-8, 40), 4)) for _ in range(4)]},
     "pixel_grids": lambda rng, m, ps: {"pts": pts_for(rng, m, ps)},
@@ -907,7 +960,7 @@ def sp_relocate(aa, inp, ps, o, d, rng):
                     dist = [(p[0] - q[0]) ** 2 + (p[1] - q[1]) ** 2 for q in bg]
                     if len({r2(q) for q, dd_ in zip(bg, dist) if dd_ == min(dist)}) > 1: skip = True
         gin = sg + pert
-        grid_in = aa.Grid2DIrregular(values=gin)
+        grid_in = aa.Grid2DIrregular(values=gin.copy())
         if use_mesh:
             mesh_in = np.array([[fl(q[0] + oo[0]), fl(q[1] + oo[1])] for q in mesh_rel])
             res_ = np.asarray(br.relocated_mesh_grid_from(grid=grid_in, mesh_grid=aa.Grid2DIrregular(values=mesh_in)), dtype=float)
